@@ -163,6 +163,8 @@ class SymEx:
             x = sfield(v, n)
             if x is None and idx is not None:
                 x = sfield(v, str(idx))
+            if x is None and v[1].startswith('?sym:'):
+                return SYM('%s.%s' % (v[1][5:], n))
             if x is None:
                 return ('unk', 'field %s of %s' % (n, v[1]))
             return x
@@ -552,6 +554,8 @@ class SymEx:
                 return self.deep(st, v)
         if name.endswith(('From<T>>::from', 'Into<U>>::into')):
             return args[0]
+        if name.endswith('UnsafeCell::<T>::get') or name.endswith('UnsafeCell::<T>::raw_get'):
+            return args[0]          # pointer to the cell's content == the cell (transparent)
         return None
 
     def rvalue_neg(self, a):
@@ -566,6 +570,8 @@ class SymEx:
             return sfield(m, '%d%d' % (r, c))
         if m[0] == 'struct' and sfield(m, '0') is not None and len(m[3]) == 1:
             return self.mat_elem(st, sfield(m, '0'), r, c)      # newtype wrapper
+        if m[0] == 'struct' and m[1].startswith('?sym:'):
+            return SYM('%s.0[%d,%d]' % (m[1][5:], r, c))
         if m[0] == 'sym':
             return SYM('%s[%d,%d]' % (m[1], r, c))
         return APP('elem%d%d' % (r, c), m)
@@ -640,6 +646,11 @@ class SymEx:
                         path.append(tgt[3][0][0])
                         tgt = tgt[3][0][1]
                     if tgt[0] == 'struct' and tgt[1] == 'M3':
+                        return ('ref', m[1], m[2], tuple(path) + ('%d%d' % (r, c),))
+                    if tgt[0] == 'sym' and last == 'index_mut':
+                        mat = self.m3([[SYM('%s[%d,%d]' % (tgt[1], i, j)) for j in range(3)] for i in range(3)])
+                        base = st.frames[m[1]].get(m[2])
+                        st.frames[m[1]][m[2]] = self._set_path(base, path, mat) if path else mat
                         return ('ref', m[1], m[2], tuple(path) + ('%d%d' % (r, c),))
                 return self.mat_elem(st, m, r, c)
         if 'transform_ops' in name and last == 'mul':
